@@ -67,8 +67,7 @@ F24Clauses == {"CarrierExists", "EventuallyTerminal", "DrainedD0", "DrainedD1", 
 (* ---- F16: crash windows in which redelivery does not restore the execution (C04).
    a  the crash falls between a Task event's notify frame and its deferred (delegate) frame: the
       request was never sent, and the redelivered event is not sent either (redelivered => no send);
-   b  after a restart a reply is delivered between the redelivered event's notify frame and its
-      delegate frame: it is parked as an orphan and the scan is never scheduled;
+   b  (fixed in the repository: a reply parked as an orphan now schedules the scan itself)
    c  the crash falls after a branch's reply was consumed and acknowledged while its result lived
       only in the volatile join state: the redelivered (held) branch event waits for a reply that
       was already consumed;
@@ -84,10 +83,6 @@ F16c(s0, e) ==
               /\ u.ch \in KChansOf(s0.b, e.conn) /\ u.sn \in DOMAIN s0.msg
               /\ s0.msg[u.sn].kind = "event" /\ s0.msg[u.sn].exec = x
               /\ \E r \in s0.rpcs : r.base = s0.msg[u.sn].mid /\ r.stage = "done"}
-F16b(s1, e) ==
-    IF e.k = "frame" /\ e.cause = "reply" /\ s1.crashed
-    THEN {KEv(s1, m).exec : m \in {m \in s1.fr.trig : \E t \in s1.timers : t.kind = "delegate" /\ m \in t.trig}} \ {""}
-    ELSE {}
 F16d(s0, e) ==
     IF e.k = "frame" /\ e.cause = "deliver" /\ e.red /\ e.sn \in DOMAIN s0.msg /\ s0.msg[e.sn].kind = "event"
        /\ s0.msg[e.sn].state = "" /\ s0.msg[e.sn].exec # ""
@@ -100,7 +95,7 @@ F16dClauses == {"NotifSeqOK", "HistoryNeverShrinks", "HistoryWellFormed", "HistA
 NewTaints(s0, s1, e, active) ==
     (IF "F19" \in active THEN {<<x, "F19">> : x \in F19Starts(s0, e)} ELSE {})
     \cup (IF "F18" \in active /\ e.k = "frame" /\ F18Frame(s1) THEN {<<x, "F18">> : x \in KTrigOwners(s1)} ELSE {})
-    \cup (IF "F16" \in active THEN {<<x, "F16">> : x \in F16a(s0, e) \cup F16c(s0, e) \cup F16b(s1, e)} ELSE {})
+    \cup (IF "F16" \in active THEN {<<x, "F16">> : x \in F16a(s0, e) \cup F16c(s0, e)} ELSE {})
     \cup (IF "F16" \in active THEN {<<x, "F16d">> : x \in F16d(s0, e)} ELSE {})
     \cup (IF "F24" \in active /\ e.k = "pub" /\ s1.fr.retrysib /\ ~s0.fr.retrysib THEN {<<e.exec, "F24">>} ELSE {})
 
